@@ -149,3 +149,31 @@ fn c13_q_collides() {
         assert!(inside3(a, w) && inside3(b, w));
     }
 }
+
+// ---- IEEE level: comparison-only methods at f32, every bit pattern (NaN, infinities, signed zeros included) -------
+// Closed-interval membership in IEEE terms: a NaN coordinate is a member of no interval, a box with a NaN corner has
+// no members on that axis. (Engine S works over the reals and cannot see which way an unordered comparison falls.)
+fn fv2() -> Vec2<f32> { Vec2::new(kani::any(), kani::any()) }
+fn fv3() -> Vec3<f32> { Vec3::new(kani::any(), kani::any(), kani::any()) }
+/// K: fns=Aabr::contains_point,Aabb::contains_point,Aabr::is_valid,Aabb::is_valid,Rect::contains_point | inst=Aabr<f32>,Aabb<f32>,Rect<f32,f32> | bound=every bit pattern of every corner and point coordinate (NaN, +-inf, +-0 included)
+/// K: asserts=contains_point <=> min <= p <= max on every axis with IEEE comparisons (false for an unordered coordinate); is_valid <=> min <= max on every axis; Rect::contains_point = the converted box's
+#[kani::proof]
+fn c13_q_contains_point_f32() {
+    if kani::any() {
+        let (b, p) = (Aabr { min: fv2(), max: fv2() }, fv2());
+        kani::cover!(p.x.is_nan(), "NaN point coordinate");
+        kani::cover!(b.max.y.is_nan(), "NaN corner");
+        kani::cover!(b.contains_point(p), "contained");
+        assert!(b.contains_point(p) == (b.min.x <= p.x && p.x <= b.max.x && b.min.y <= p.y && p.y <= b.max.y));
+        assert!(b.is_valid() == (b.min.x <= b.max.x && b.min.y <= b.max.y));
+        // (the rectangle's far corner is position + extent: kept finite so that the sum is a number)
+        kani::assume(b.min.x.is_finite() && b.min.y.is_finite() && b.max.x.abs() < 1.0e30 && b.max.y.abs() < 1.0e30 && b.min.x.abs() < 1.0e30 && b.min.y.abs() < 1.0e30);
+        let r = vek::geom::repr_c::Rect::<f32, f32>::new(b.min.x, b.min.y, b.max.x, b.max.y);
+        assert!(r.contains_point(p) == (r.x <= p.x && p.x <= r.x + r.w && r.y <= p.y && p.y <= r.y + r.h));
+    } else {
+        let (b, p) = (Aabb { min: fv3(), max: fv3() }, fv3());
+        kani::cover!(p.z.is_nan(), "NaN point coordinate");
+        assert!(b.contains_point(p) == (b.min.x <= p.x && p.x <= b.max.x && b.min.y <= p.y && p.y <= b.max.y && b.min.z <= p.z && p.z <= b.max.z));
+        assert!(b.is_valid() == (b.min.x <= b.max.x && b.min.y <= b.max.y && b.min.z <= b.max.z));
+    }
+}
